@@ -1,5 +1,146 @@
-(* C03 — plugin output implements the schema. Property-level statements only. (work in progress) *)
-From BP Require Import Base.Prelude Spec.Descriptor gen.C03Tables Model.Plugin Proofs.PluginP.
+(* C03 — the protoc plugin's output implements the schema.
+   Property-level statements only; every proof is a single [exact] of a lemma from Proofs/PluginP.v or
+   Proofs/PluginWitP.v, followed by Print Assumptions.
 
-Example C03_ex_parse : parse_source_type_name [x2e; x61; x2e; x42] = ([x61], [x42]).
+   Reading guide
+     descriptor          Spec/Descriptor.v   FileDescriptorSet as protoc emits it (any number of files, messages, nesting depth)
+     protoc_wf D         Spec/Descriptor.v   what protoc guarantees: identifiers, type names resolve to the right kind,
+                                             oneof_index in range, map-entry types named MapEntryName(field) with key = 1, value = 2,
+                                             nested type names distinct
+     class_table_of      Spec/Descriptor.v   the MEANING of D: one class per message / enum, fields with number, proto type,
+                                             cardinality (hint shape, optional flag, map types), oneof group, wrapper /
+                                             Timestamp / Duration mapping, enum members with their numbers
+     compile, reflect    Model/Plugin.v      what the plugin emits (heuristics included) and what Python makes of it
+     names_ok            Proofs/PluginP.v    the naming side conditions; each conjunct is a known-finding class when false:
+                                             pkg_names_ok (K2), flat_dotted_ok + class_nodup (K1), fields_nodup + members_nodup (K8),
+                                             map_keys_ok (K13), wraps_ok (K14)
+   The naming functions field_name / class_name / enum_member_name (pythonize_field_name, pythonize_class_name,
+   pythonize_enum_member_name of compile/naming.py; property C19) are universally quantified: the theorems hold for
+   EVERY choice of them that satisfies names_ok on D, and the harness evaluates names_ok with the real functions. *)
+From BP Require Import Base.Prelude Spec.Descriptor gen.C03Tables Model.Plugin Proofs.PluginP Proofs.PluginWitP.
+From Coq Require Import String.
+Open Scope list_scope.
+Open Scope Z_scope.
+
+(* For every descriptor set protoc can emit (no bound on files, messages, fields or nesting depth) and every
+   naming that is injective per scope: the class table Python builds from the plugin's output IS the class
+   table the schema denotes — one class per message and enum (nested ones included, map-entry types
+   excepted), and per field its number, proto type, cardinality, map key/value types, oneof group, wraps,
+   optional flag and resolved type hint; per enum member its number. *)
+Theorem C03_field_faithful :
+  forall (field_name class_name : str -> str) (enum_member_name : str -> str -> str) (D : descriptor),
+    protoc_wf D = true -> names_ok field_name class_name enum_member_name D = true ->
+    exists t, class_table_of field_name class_name enum_member_name D = Some t
+              /\ reflect (compile field_name class_name enum_member_name D) = Ok t.
+Proof. exact field_faithful. Qed.
+Print Assumptions C03_field_faithful.
+
+(* the is_map name heuristic never misses a map field of a descriptor protoc emitted (no naming condition) ... *)
+Theorem C03_is_map_complete :
+  forall D f p m x, protoc_wf D = true -> In f D -> In (p, m) (file_msgs f) -> In x (md_fields m) ->
+    spec_is_map (fl_package f) p m x = true -> is_map x m = true.
+Proof. exact is_map_no_false_negative. Qed.
+Print Assumptions C03_is_map_complete.
+
+(* ... and coincides with the specification's reading exactly when map_keys_ok holds *)
+Theorem C03_is_map_exact :
+  forall D f p m x, protoc_wf D = true -> map_keys_ok D = true ->
+    In f D -> In (p, m) (file_msgs f) -> In x (md_fields m) ->
+    is_map x m = spec_is_map (fl_package f) p m x.
+Proof. exact is_map_exact. Qed.
+Print Assumptions C03_is_map_exact.
+
+(* the package regex of parse_source_type_name splits every type name of D where the symbol table does,
+   provided packages are capital-free and top-level type names contain a capital *)
+Theorem C03_type_name_split :
+  forall D tn s, protoc_wf D = true -> pkg_names_ok D = true -> resolve D tn = Some s ->
+    parse_source_type_name tn = (sym_pkg s, dotted (sym_path s)).
+Proof. exact type_name_split. Qed.
+Print Assumptions C03_type_name_split.
+
+(* MapEntryName and the heuristic's key: lower(strip_(CamelCase(name) + "Entry")) = lower(strip_(name)) + "entry" *)
+Theorem C03_map_entry_key :
+  forall name, lower (strip_us (map_entry_name name)) = lower (strip_us name) ++ s_entry
+               /\ lower (map_entry_name name) = lower (strip_us name) ++ s_entry.
+Proof. exact (fun n => conj (lower_strip_map_entry_name n) (lower_map_entry_name n)). Qed.
+Print Assumptions C03_map_entry_key.
+
+(* both bundled google.protobuf libraries (std and pydantic, with their .compiler modules) agree with
+   descriptor.proto / plugin.proto / the well-known-type protos on every field number they share
+   (finite sweep over the regenerated tables) *)
+Theorem C03_bundled_agree : forallb agree_on_shared_numbers bundled_vs_reference = true.
+Proof. exact bundled_agree. Qed.
+Print Assumptions C03_bundled_agree.
+
+Theorem C03_bundled_enums_agree : forallb enum_agree_on_shared_names bundled_enums_vs_reference = true.
+Proof. exact bundled_enums_agree. Qed.
+Print Assumptions C03_bundled_enums_agree.
+
+(* ---- where the pinned plugin violates the full statement (names_ok cannot be dropped) ---- *)
+Theorem C03_collision_refuted :
+  protoc_wf D_k1 = true
+  /\ reflect (compile w_field_name w_class_name w_member_name D_k1)
+     <> res_of_opt (class_table_of w_field_name w_class_name w_member_name D_k1).
+Proof. exact collision_refuted. Qed.
+Print Assumptions C03_collision_refuted.
+
+Theorem C03_member_collision_refuted :
+  protoc_wf D_k8 = true
+  /\ reflect (compile w_field_name w_class_name w_member_name D_k8)
+     <> res_of_opt (class_table_of w_field_name w_class_name w_member_name D_k8).
+Proof. exact member_collision_refuted. Qed.
+Print Assumptions C03_member_collision_refuted.
+
+Theorem C03_package_regex_refuted :
+  protoc_wf D_k2 = true
+  /\ reflect (compile w_field_name w_class_name w_member_name D_k2)
+     <> res_of_opt (class_table_of w_field_name w_class_name w_member_name D_k2)
+  /\ parse_source_type_name (b ".wp.lower.inner") = (b "wp.lower", b "inner").
+Proof. exact package_regex_refuted. Qed.
+Print Assumptions C03_package_regex_refuted.
+
+Theorem C03_is_map_refuted :
+  protoc_wf D_k13 = true
+  /\ exists f p m x, In f D_k13 /\ In (p, m) (file_msgs f) /\ In x (md_fields m)
+       /\ is_map x m = true /\ spec_is_map (fl_package f) p m x = false.
+Proof. exact is_map_refuted. Qed.
+Print Assumptions C03_is_map_refuted.
+
+Theorem C03_wraps_refuted :
+  field_wraps (b ".google.protobuf.EnumValue") = Some (b "enum")
+  /\ lookup (b ".google.protobuf.EnumValue") wkt_wrappers = None.
+Proof. exact wraps_refuted. Qed.
+Print Assumptions C03_wraps_refuted.
+
+(* ---- non-vacuity ---- *)
+(* a schema with nesting, recursion, two maps, a oneof, proto3 optional, repeated, a negative enum number,
+   Timestamp and a wrapper satisfies both premises of C03_field_faithful ... *)
+Example C03_ex_premises :
+  protoc_wf D_ok = true /\ names_ok w_field_name w_class_name w_member_name D_ok = true.
+Proof. exact D_ok_premises. Qed.
+(* ... and its class table is the expected non-trivial one *)
+Example C03_ex_table :
+  match class_table_of w_field_name w_class_name w_member_name D_ok with
+  | Some [(pkg, classes)] => pkg = b "p.q" /\ map fst classes = [b "Color"; b "OuterInnerKind"; b "Outer"; b "OuterInner"]
+  | _ => False
+  end.
+Proof. exact (proj2 D_ok_table). Qed.
+Example C03_ex_field :
+  match class_table_of w_field_name w_class_name w_member_name D_ok with
+  | Some [(_, [_; _; (_, ClsMessage (f1 :: _)); _])] =>
+      f1 = mkPyField (b "by_name") 1 (b "map") (Some (b "string", b "message")) None None false
+                     (PyDict PyStr (PyRef (b "p.q") (b "OuterInner")))
+  | _ => False
+  end.
+Proof. exact D_ok_field. Qed.
+(* the premise of C03_is_map_exact holds on it, and a map field is recognised *)
+Example C03_ex_map_keys : map_keys_ok D_ok = true.
+Proof. vm_compute. reflexivity. Qed.
+(* the bundled sweep compares at least 40 classes, 300 shared field numbers and 10 enums *)
+Example C03_ex_bundled :
+  (40 <=? Zlength bundled_vs_reference) = true
+  /\ (300 <=? fold_right Z.add 0 (map shared_numbers bundled_vs_reference)) = true
+  /\ (10 <=? Zlength bundled_enums_vs_reference) = true.
+Proof. exact bundled_nonvacuous. Qed.
+Example C03_ex_parse : parse_source_type_name (b ".a.b.Outer.Inner") = (b "a.b", b "Outer.Inner").
 Proof. vm_compute. reflexivity. Qed.
